@@ -193,6 +193,9 @@ pub(crate) struct Item {
     recommit: bool,
     /// blocks the old branch grows by single announcements between the full sync and the switch
     steps: u64,
+    /// the old branch has no script activity after block 8 (filter batches over its last blocks
+    /// match nothing), the new branch has activity in every block
+    quiet: bool,
 }
 
 fn chains(env: &Env, item: &Item) -> (Chain, Chain, u64) {
@@ -210,7 +213,10 @@ fn chains(env: &Env, item: &Item) -> (Chain, Chain, u64) {
         // ... and spent by the first transaction of the (always abandoned) old tip
         (l, Act::Untype('A', 'B')),
     ];
-    for n in (fork_at.saturating_sub(1)).max(8)..=l {
+    if item.quiet {
+        acts.pop();
+    }
+    for n in (fork_at.saturating_sub(1)).max(8)..=(if item.quiet { 0 } else { l }) {
         match n % 3 {
             0 => acts.push((n, Act::Mine('A'))),
             1 => acts.push((n, Act::Move('A', 'B'))),
@@ -224,7 +230,7 @@ fn chains(env: &Env, item: &Item) -> (Chain, Chain, u64) {
     let new_tip = l + item.growth;
     let mut new_acts: Vec<(u64, Act)> = vec![];
     for n in (fork_at + 1)..=new_tip {
-        if n % 2 == 0 {
+        if n % 2 == 0 || item.quiet {
             new_acts.push((n, Act::Mine('A')));
         } else if n % 5 == 0 {
             new_acts.push((n, Act::Mine('B')));
@@ -269,28 +275,33 @@ pub(crate) fn run(opts: &Opts, report: &mut Report) {
             // probability; last-N+6 exercises the sampled path with a lower one)
             for growth in if thorough { (1..=(last_n + 2)).chain([last_n + 6]).collect::<Vec<_>>() } else { vec![1, last_n, last_n + 2, last_n + 6] } {
                 for set in if thorough { vec![0usize, 1, 2, 3] } else { vec![1usize, 3] } {
-                    items.push(Item { last_n, depth, growth, set, rewind: 0, slow: false, recommit: false, steps: 0 });
+                    items.push(Item { last_n, depth, growth, set, rewind: 0, slow: false, recommit: false, steps: 0, quiet: false });
                     // the old branch grows block by block (child announcements, no proof) before
                     // the switch: the remembered last-N headers come from the child shortcut
                     if depth <= last_n && (thorough || set == 1) && (thorough || growth == 1 || growth == last_n + 2) {
                         for steps in 1..=(last_n + 2) {
-                            items.push(Item { last_n, depth, growth, set, rewind: 0, slow: false, recommit: false, steps });
+                            items.push(Item { last_n, depth, growth, set, rewind: 0, slow: false, recommit: false, steps, quiet: false });
                         }
+                    }
+                    // an old branch without script activity after block 8 (its last filter batches
+                    // match nothing), a new branch with activity in every block
+                    if depth <= last_n && (thorough || (set == 1 && growth == last_n + 2)) {
+                        items.push(Item { last_n, depth, growth, set, rewind: 0, slow: false, recommit: false, steps: 0, quiet: true });
                     }
                     // the new branch commits the abandoned transactions again (shallow forks)
                     if depth <= last_n && growth >= 2 && (thorough || set == 1) {
-                        items.push(Item { last_n, depth, growth, set, rewind: 0, slow: false, recommit: true, steps: 0 });
+                        items.push(Item { last_n, depth, growth, set, rewind: 0, slow: false, recommit: true, steps: 0, quiet: false });
                     }
                     // the same with a set_scripts that rewinds filter syncing right before the
                     // switch after the full sync (shallow forks, one script set; thorough: all)
                     // slow block bodies (shallow forks): bodies requested on the old branch arrive
                     // after the proof of the new one
                     if depth <= last_n && (thorough || set == 1) {
-                        items.push(Item { last_n, depth, growth, set, rewind: 0, slow: true, recommit: false, steps: 0 });
+                        items.push(Item { last_n, depth, growth, set, rewind: 0, slow: true, recommit: false, steps: 0, quiet: false });
                     }
                     if depth <= last_n && (thorough || set == 1) {
-                        items.push(Item { last_n, depth, growth, set, rewind: 1, slow: false, recommit: false, steps: 0 });
-                        items.push(Item { last_n, depth, growth, set, rewind: 2, slow: false, recommit: false, steps: 0 });
+                        items.push(Item { last_n, depth, growth, set, rewind: 1, slow: false, recommit: false, steps: 0, quiet: false });
+                        items.push(Item { last_n, depth, growth, set, rewind: 2, slow: false, recommit: false, steps: 0, quiet: false });
                     }
                 }
             }
@@ -308,7 +319,7 @@ pub(crate) fn run(opts: &Opts, report: &mut Report) {
             2 => vec![Reg { script: s.b.clone(), is_lock: true, start: 0 }, Reg { script: s.a.clone(), is_lock: true, start: 6 }],
             _ => vec![Reg { script: s.t.clone(), is_lock: false, start: 0 }, Reg { script: s.b.clone(), is_lock: true, start: 0 }],
         };
-        let name = format!("lastN{}/depth{}/growth{}/set{}{}", item.last_n, item.depth, item.growth, item.set, format!("{}{}", ["", "/rewind", "/registered-again"][item.rewind as usize], if item.slow { "/slow-blocks".to_owned() } else if item.recommit { "/recommit".to_owned() } else if item.steps > 0 { format!("/steps{}", item.steps) } else { String::new() }));
+        let name = format!("lastN{}/depth{}/growth{}/set{}{}", item.last_n, item.depth, item.growth, item.set, format!("{}{}", ["", "/rewind", "/registered-again"][item.rewind as usize], if item.slow { "/slow-blocks".to_owned() } else if item.recommit { "/recommit".to_owned() } else if item.quiet { "/quiet-old-branch".to_owned() } else if item.steps > 0 { format!("/steps{}", item.steps) } else { String::new() }));
         let sc = ForkScenario {
             env: &env,
             name: name.clone(),
@@ -455,7 +466,7 @@ pub(crate) fn run(opts: &Opts, report: &mut Report) {
 
 pub(crate) fn debug_case() {
     let env = Env::dummy();
-    let item = Item { last_n: 2, depth: 1, growth: 4, set: 0, rewind: 0, slow: false, recommit: false, steps: 0 };
+    let item = Item { last_n: 2, depth: 1, growth: 4, set: 0, rewind: 0, slow: false, recommit: false, steps: 0, quiet: false };
     let (old, new, new_tip) = chains(&env, &item);
     let s = &env.scripts;
     let regs = vec![Reg { script: s.a.clone(), is_lock: true, start: 0 }];
@@ -483,7 +494,12 @@ pub(crate) fn debug_case() {
 
 /// The fork scenario for other checks (C08): full sync of the old branch, then the switch.
 pub(crate) fn scenario<'a>(env: &'a Env, last_n: u64, depth: u64, growth: u64, set: usize) -> (ForkScenario<'a>, Vec<Reg>) {
-    let item = Item { last_n, depth, growth, set, rewind: 0, slow: false, recommit: std::env::var("C04_RECOMMIT").is_ok(), steps: 0 };
+    scenario_with(env, last_n, depth, growth, set, false)
+}
+
+/// `quiet`: no script activity on the old branch after block 8, activity in every new block.
+pub(crate) fn scenario_with<'a>(env: &'a Env, last_n: u64, depth: u64, growth: u64, set: usize, quiet: bool) -> (ForkScenario<'a>, Vec<Reg>) {
+    let item = Item { last_n, depth, growth, set, rewind: 0, slow: false, recommit: std::env::var("C04_RECOMMIT").is_ok(), steps: 0, quiet };
     let (old, new, new_tip) = chains(env, &item);
     let s = &env.scripts;
     let regs: Vec<Reg> = match set {
@@ -494,7 +510,7 @@ pub(crate) fn scenario<'a>(env: &'a Env, last_n: u64, depth: u64, growth: u64, s
     (
         ForkScenario {
             env,
-            name: format!("lastN{}/depth{}/growth{}/set{}", last_n, depth, growth, set),
+            name: format!("lastN{}/depth{}/growth{}/set{}{}", last_n, depth, growth, set, if quiet { "/quiet-old-branch" } else { "" }),
             old,
             new,
             regs: regs.clone(),
